@@ -98,7 +98,8 @@ def main():
             for k, (tx, rid) in enumerate(content[f]):
                 sym = 'S\u00e9\u00df' if uni == 2 and k % 2 == 0 else 'S'
                 lines.append(f"G{tx}\t{10 + k}\tSNV-{10 + k}-A-T-{rid}\tA\tT\t.\t.\tTRANSCRIPT_ID={tx};GENE_SYMBOL={sym};GENOMIC_POSITION=chr1:{k}")
-            open(path(f), 'w', encoding='utf-8').write('\n'.join(lines) + '\n')
+            # some scenarios leave the last line without a line break (hand-edited / concatenated files)
+            open(path(f), 'w', encoding='utf-8').write('\n'.join(lines) + ('' if sc.get('nonl') else '\n'))
         try:
             for op in sc['ops']:
                 if op['op'] == 'append':
